@@ -200,6 +200,19 @@ class Ops:
         raise EngineError(f"binop {type(op).__name__} on {a}, {b} (line {getattr(node, 'lineno', '?')})")
 
     def special_arith(self, op, a, b, node):
+        """IEEE results that do not depend on the finite operand's value: x + inf, inf + inf, inf - inf (nan), x / inf (0), anything with nan"""
+        sa, sb = getattr(a, "special", None), getattr(b, "special", None)
+        if "nan" in (sa, sb):
+            return VReal(0, special="nan")
+        neg = lambda s_: {"inf": "-inf", "-inf": "inf", None: None}[s_]
+        if isinstance(op, (ast.Add, ast.Sub)):
+            if isinstance(op, ast.Sub):
+                sb = neg(sb)
+            if sa and sb:
+                return VReal(0, special=sa if sa == sb else "nan")
+            return VReal(0, special=sa or sb)
+        if isinstance(op, ast.Div) and sb and not sa:
+            return VReal(z3.RealVal(0))
         raise EngineError(f"arithmetic on inf/nan (line {getattr(node, 'lineno', '?')})")
 
     def unaryop(self, op, v, node):
